@@ -2,4 +2,4 @@
 # independent re-check of the compiled library + list of axioms (thorough; takes minutes and several GB)
 cd "$(dirname "${BASH_SOURCE[0]}")/coq" || exit 2
 mods=$(ls theories/*.vo 2>/dev/null | sed 's|theories/\(.*\)\.vo|Evo.\1|')
-timeout 3000 coqchk -silent -o -Q theories Evo -Q generated EvoGen $mods 2>&1 | tail -60
+timeout 3000 coqchk -silent -o -Q theories Evo -Q generated EvoGen $mods 2>&1
